@@ -121,6 +121,8 @@ class Island(EvolutionaryOptimizer):
         return self._ea.diagnostics
 
     def _get_potential_hof_members(self):
+        if self.generational_age == 0:
+            self.evaluate_population()
         return self.population
 
     def dump_fraction_of_population(self, fraction):
